@@ -194,7 +194,7 @@ class Interp:
                 return r
             self.set_results(op, r)
             return None
-        if name in ("scf.yield", "func.return", "dart.yield", "linalg.yield", "pipeline.yield", "accfg.yield"):
+        if name in ("scf.yield", "func.return", "dart.yield", "linalg.yield", "pipeline.yield", "accfg.yield", "phs.yield"):
             return ("term", op, [self.get(o) for o in op.operands])
         if name == "scf.condition":
             return ("term", op, [self.get(o) for o in op.operands])
